@@ -482,6 +482,151 @@ fn reconstruct_family(ctx: &Ctx, report: &mut Report) -> Result<(), String> {
             }
         }
     }
+    // (B2) arbitrary compact-block structure: every prefilled index sequence of length 0..=3 over
+    // {0,1,2,3,4,7} x short-id lists (0..3 ids, one list with a duplicate), in production order
+    // (CompactBlockVerifier, then reconstruct_block) with nothing / everything supplied.
+    {
+        let all_txs: Vec<TransactionView> = block.transactions();
+        let ids: Vec<packed::ProposalShortId> = txs.iter().map(|t| t.proposal_short_id()).collect();
+        let id_lists: Vec<Vec<packed::ProposalShortId>> = vec![vec![], vec![ids[0].clone()], vec![ids[0].clone(), ids[1].clone()], ids.clone(), vec![ids[0].clone(), ids[0].clone()], vec![ids[1].clone(), ids[2].clone()], vec![ids[2].clone()]];
+        let dom = [0u32, 1, 2, 3, 4, 7];
+        let mut seqs: Vec<Vec<u32>> = vec![vec![]];
+        for len in 1..=3usize {
+            let mut cur: Vec<Vec<u32>> = vec![vec![]];
+            for _ in 0..len {
+                cur = cur.into_iter().flat_map(|p| dom.iter().map(move |d| { let mut q = p.clone(); q.push(*d); q })).collect();
+            }
+            seqs.extend(cur);
+        }
+        let base = packed::CompactBlock::build_from_block(&block, &HashSet::new());
+        for seq in &seqs {
+            for (li, id_list) in id_lists.iter().enumerate() {
+                let prefilled: Vec<packed::IndexTransaction> = seq
+                    .iter()
+                    .map(|i| packed::IndexTransaction::new_builder().index(*i).transaction(all_txs[(*i as usize).min(3)].data()).build())
+                    .collect();
+                let cb = base.clone().as_builder().prefilled_transactions(prefilled.pack()).short_ids(id_list.clone().pack()).build();
+                let label = json!({"family": "structure", "prefilled_indexes": seq, "short_id_list": li});
+                let verdict = std::panic::catch_unwind(|| ckb_sync::verif::compact_block_verify(&cb).is_ok());
+                report.evaluations += 1;
+                let accepted = match verdict {
+                    Err(_) => {
+                        report.violation("structure/verifier-panic", format!("CompactBlockVerifier panicked on prefilled indexes {seq:?}"), label);
+                        continue;
+                    }
+                    Ok(a) => a,
+                };
+                if !accepted {
+                    report.count("structure_refused_by_verifier", 1);
+                    continue;
+                }
+                report.count("structure_accepted_by_verifier", 1);
+                for supplied_all in [false, true] {
+                    let received: Vec<TransactionView> = if supplied_all { txs.clone() } else { vec![] };
+                    let active = sync_shared.active_chain();
+                    let fut = relayer.reconstruct_block(&active, &cb, received, &[], &[]);
+                    let res = std::panic::catch_unwind(std::panic::AssertUnwindSafe(|| handle.block_on(fut)));
+                    report.evaluations += 1;
+                    report.states.insert(fp(&("structure", seq, li, supplied_all)));
+                    use ckb_sync::ReconstructionResult as RR;
+                    let label = json!({"family": "structure", "prefilled_indexes": seq, "short_id_list": li, "supplied_all": supplied_all});
+                    match res {
+                        Err(_) => report.violation("structure/panic", format!("reconstruct_block panicked on a compact block accepted by CompactBlockVerifier: prefilled indexes {seq:?}, {} short ids", id_list.len()), label),
+                        Ok(RR::Block(b)) => {
+                            report.outcomes.insert(5);
+                            if b.hash() != announced_hash || b.data().as_slice() != block.data().as_slice() {
+                                report.violation("structure/different-block", format!("prefilled indexes {seq:?}: reconstruction returned block {} for a compact block announcing {}", b.hash(), announced_hash), label);
+                            } else {
+                                report.nontrivial.insert(fp(&("structure", seq, li)));
+                            }
+                        }
+                        Ok(RR::Missing(txm, _)) => {
+                            report.outcomes.insert(6);
+                            if txm.iter().any(|i| *i >= cb.txs_len()) {
+                                report.violation("structure/imprecise-missing", format!("missing report {txm:?} names positions outside the block of {} txs", cb.txs_len()), label);
+                            }
+                        }
+                        Ok(RR::Collided) => {
+                            report.outcomes.insert(7);
+                        }
+                        Ok(RR::Error(_)) => {
+                            report.outcomes.insert(8);
+                        }
+                    }
+                }
+            }
+        }
+    }
+    // (B3) uncles: a block with two uncles the node does not know; for every set of uncle
+    // indexes the node may have asked for and every sequence (length 0..=3) of uncles a peer may
+    // answer with, in production order: BlockUnclesVerifier, then reconstruct_block.
+    {
+        let mk_uncle = |n: u8| -> ckb_types::core::UncleBlockView {
+            BlockBuilder::default().number(1u64).parent_hash(cons.genesis_hash()).timestamp(time_for_height(1) + n as u64).compact_target(cons.genesis_block().compact_target()).nonce(n as u128).build().as_uncle()
+        };
+        let u: Vec<ckb_types::core::UncleBlockView> = vec![mk_uncle(1), mk_uncle(2), mk_uncle(3)]; // u[2] is foreign
+        let ublock: BlockView = block.as_advanced_builder().number(2u64).uncle(u[0].clone()).uncle(u[1].clone()).build();
+        let all: HashSet<usize> = (0..4).collect();
+        let cb = packed::CompactBlock::build_from_block(&ublock, &all);
+        let index_sets: Vec<Vec<u32>> = subsets(&[0u32, 1]);
+        let mut answers: Vec<Vec<usize>> = vec![vec![]];
+        for len in 1..=3usize {
+            let mut cur: Vec<Vec<usize>> = vec![vec![]];
+            for _ in 0..len {
+                cur = cur.into_iter().flat_map(|p| (0..3usize).map(move |d| { let mut q = p.clone(); q.push(d); q })).collect();
+            }
+            answers.extend(cur);
+        }
+        for idx in &index_sets {
+            for ans in &answers {
+                let supplied: Vec<ckb_types::core::UncleBlockView> = ans.iter().map(|i| u[*i].clone()).collect();
+                let label = json!({"family": "uncles", "asked_indexes": idx, "answered": ans});
+                report.evaluations += 1;
+                let verdict = std::panic::catch_unwind(|| ckb_sync::verif::block_uncles_verify(&cb, idx, &supplied).is_ok());
+                let accepted = match verdict {
+                    Err(_) => {
+                        report.violation("uncles/verifier-panic", format!("BlockUnclesVerifier panicked: asked {idx:?}, answered {ans:?}"), label);
+                        continue;
+                    }
+                    Ok(a) => a,
+                };
+                if !accepted {
+                    report.count("uncle_answers_refused_by_verifier", 1);
+                    continue;
+                }
+                report.count("uncle_answers_accepted_by_verifier", 1);
+                let active = sync_shared.active_chain();
+                let fut = relayer.reconstruct_block(&active, &cb, vec![], idx, &supplied);
+                let res = std::panic::catch_unwind(std::panic::AssertUnwindSafe(|| handle.block_on(fut)));
+                report.states.insert(fp(&("uncles", idx, ans)));
+                use ckb_sync::ReconstructionResult as RR;
+                match res {
+                    Err(_) => report.violation("uncles/panic", format!("reconstruct_block panicked on an uncle answer accepted by BlockUnclesVerifier: asked for uncle indexes {idx:?}, peer answered with uncles {ans:?}"), label),
+                    Ok(RR::Block(b)) => {
+                        report.outcomes.insert(9);
+                        if b.hash() != ublock.hash() || b.data().as_slice() != ublock.data().as_slice() {
+                            report.violation("uncles/different-block", format!("asked {idx:?}, answered {ans:?}: reconstruction returned block {} for a compact block announcing {}", b.hash(), ublock.hash()), label);
+                        } else {
+                            report.nontrivial.insert(fp(&("uncles", idx, ans)));
+                        }
+                    }
+                    Ok(RR::Missing(txm, um)) => {
+                        report.outcomes.insert(10);
+                        let want: Vec<usize> = (0..2usize).filter(|i| !idx.contains(&(*i as u32))).collect();
+                        if !txm.is_empty() || um != want {
+                            report.violation("uncles/imprecise-missing", format!("asked {idx:?}, answered {ans:?}: missing report {txm:?}/{um:?}, the locally unknown uncles not asked for are {want:?}"), label);
+                        }
+                    }
+                    Ok(RR::Collided) => {
+                        report.outcomes.insert(11);
+                    }
+                    Ok(RR::Error(_)) => {
+                        report.outcomes.insert(12);
+                    }
+                }
+            }
+        }
+    }
     report.traces += 1;
     // the relayer holds a ChainController: the chain service only stops once every clone is gone
     drop(relayer);
@@ -495,7 +640,7 @@ pub fn meta(tier: Tier) -> Meta {
     Meta {
         id: "C16",
         level: "exploration",
-        rule: "decode: all 65 793 byte strings of length 0..=2 into each of the four protocol readers and into decompress; for each of 27 seed messages (one per union arm, small and large) every truncation, every single-byte substitution from {00,01,7f,80,ff,b-1,b+1}, every aligned 4-byte word replaced by {0,1,len-1,len,len+1,7fffffff,ffffffff}, every bit flip (seeds <= 256 B), raw and on the compressed frame; each decoded value is walked (all accessors, view conversion, hashes, Display, BlockVerifier, NonContextualTransactionVerifier, CompactBlockVerifier, BlockTransactions/UnclesVerifier) under catch_unwind. reconstruct: real Relayer::reconstruct_block on a real pool for every prefilled subset containing the cellbase (8) x pool availability subset (8) x peer-supplied subset incl. a foreign tx (16) x tampering {none, short id replaced (2 positions), proposals changed, extension changed/removed}. non-trivial = a mutant that decodes / a reconstruction that returns the block.",
+        rule: "decode: all 65 793 byte strings of length 0..=2 into each of the four protocol readers and into decompress; for each of 27 seed messages (one per union arm, small and large) every truncation, every single-byte substitution from {00,01,7f,80,ff,b-1,b+1}, every aligned 4-byte word replaced by {0,1,len-1,len,len+1,7fffffff,ffffffff}, every bit flip (seeds <= 256 B), raw and on the compressed frame; each decoded value is walked (all accessors, view conversion, hashes, Display, BlockVerifier, NonContextualTransactionVerifier, CompactBlockVerifier, BlockTransactions/UnclesVerifier) under catch_unwind. reconstruct: real Relayer::reconstruct_block on a real pool for every prefilled subset containing the cellbase (8) x pool availability subset (8) x peer-supplied subset incl. a foreign tx (16) x tampering {none, short id replaced (2 positions), proposals changed, extension changed/removed}; structure: all prefilled index sequences (len 0..3 over {0,1,2,3,4,7}) x 7 short-id lists through CompactBlockVerifier then reconstruct_block; uncles: asked index subsets of {0,1} x answer sequences (len 0..3 over {U0,U1,foreign}) through BlockUnclesVerifier then reconstruct_block. non-trivial = a mutant that decodes / a reconstruction that returns the block.",
         assumptions: &["only compact blocks accepted by CompactBlockVerifier are reconstructed (production order)", "byte strings further than one mutation from a seed or longer than 2 bytes are not enumerated"],
         bounds: json!({"seed_size_cap_quick": 700, "tier": tier.as_str()}),
     }
